@@ -248,3 +248,249 @@ Proof.
   - rewrite <- (FD1 eq_refl) in Hx.
     exists (with_attr m1 r c x). split; [now apply get_cell_refresh|]. split; [reflexivity|]. repeat split.
 Qed.
+
+(* ---------- merge_ranges lists exactly the anchors ---------- *)
+Lemma in_zrange_iff a b z : In z (zrange a b) <-> a <= z < b.
+Proof.
+  unfold zrange. rewrite in_map_iff. split.
+  - intros (i & <- & Hi). apply in_seq in Hi. lia.
+  - intros H. exists (Z.to_nat (z - a)). split; [lia|]. apply in_seq. lia.
+Qed.
+
+Lemma in_combine_zrange {A} (l : list A) z x :
+  In (z, x) (combine (zrange 0 (Z.of_nat (length l))) l) <-> 0 <= z /\ nth_error l (Z.to_nat z) = Some x.
+Proof.
+  split.
+  - intros H. apply In_nth_error in H as (i & Hi).
+    assert (Hlt : (i < length (combine (zrange 0 (Z.of_nat (length l))) l))%nat) by (apply nth_error_Some; congruence).
+    rewrite combine_length, zrange_length in Hlt.
+    destruct (nth_error l i) as [y|] eqn:Ey; [|apply nth_error_None in Ey; lia].
+    rewrite (nth_error_combine _ _ i (0 + Z.of_nat i) y) in Hi; [|apply nth_error_zrange; lia|assumption].
+    injection Hi as Hz Hx. subst z x. split; [lia|]. rewrite ?Z.add_0_l, Nat2Z.id. exact Ey.
+  - intros [Hz Hn]. apply (nth_error_In _ (Z.to_nat z)).
+    assert (Hlt : (Z.to_nat z < length l)%nat) by (apply nth_error_Some; congruence).
+    rewrite (nth_error_combine _ _ (Z.to_nat z) (0 + Z.of_nat (Z.to_nat z)) x); [f_equal; f_equal; lia|apply nth_error_zrange; lia|assumption].
+Qed.
+
+Theorem merge_ranges_spec t q :
+  In q (merge_ranges t) <->
+  exists r c x h w, 0 <= r /\ 0 <= c /\ get_cell (data t) r c = Some x /\ cmerge x = MAnchor h w /\
+                    q = (r, c, r + h - 1, c + w - 1).
+Proof.
+  unfold merge_ranges. rewrite in_flat_map. split.
+  - intros ([r row] & Hrow & Hq). cbn [fst snd] in Hq. apply in_flat_map in Hq as ([c x] & Hx & Hq). cbn [fst snd] in Hq.
+    apply in_combine_zrange in Hrow as [Hr Hrow]. apply in_combine_zrange in Hx as [Hc Hx].
+    destruct (cmerge x) as [|h w|] eqn:E; try (destruct Hq; fail).
+    destruct Hq as [<-|[]]. exists r, c, x, h, w. repeat split; try assumption.
+    unfold get_cell. now rewrite Hrow.
+  - intros (r & c & x & h & w & Hr & Hc & Hg & Hm & ->). unfold get_cell in Hg.
+    destruct (nth_error (data t) (Z.to_nat r)) as [row|] eqn:Erow; [|discriminate].
+    exists (r, row). split; [apply in_combine_zrange; now split|]. cbn [fst snd].
+    apply in_flat_map. exists (c, x). split; [apply in_combine_zrange; now split|]. cbn [fst snd]. rewrite Hm. now left.
+Qed.
+
+(* shape preservation: refreshing attributes and replacing cells never creates or removes a position *)
+Lemma nth_error_indexed_none {A B} (f : Z * A -> B) (l : list A) i :
+  nth_error l i = None -> nth_error (map f (combine (zrange 0 (Z.of_nat (length l))) l)) i = None.
+Proof.
+  intros H. apply nth_error_None. rewrite map_length, combine_length, zrange_length.
+  apply nth_error_None in H. lia.
+Qed.
+
+Lemma get_cell_refresh_none m d r c : get_cell d r c = None -> get_cell (refresh m d) r c = None.
+Proof.
+  unfold get_cell, refresh. destruct (nth_error d (Z.to_nat r)) as [row|] eqn:Er.
+  - intros Hc. rewrite (nth_error_indexed _ d (Z.to_nat r) row Er). cbn [fst snd].
+    now apply nth_error_indexed_none.
+  - intros _. now rewrite (nth_error_indexed_none _ d (Z.to_nat r) Er).
+Qed.
+
+Lemma nth_error_set_nth_none {A} : forall (l : list A) i j x, nth_error l j = None -> nth_error (set_nth l i x) j = None.
+Proof.
+  intros l i j x H. apply nth_error_None. rewrite GridP.set_nth_length. now apply nth_error_None.
+Qed.
+
+Lemma get_set_cell_none d r c x r' c' : get_cell d r' c' = None -> get_cell (set_cell d r c x) r' c' = None.
+Proof.
+  unfold get_cell, set_cell. destruct (nth_error d (Z.to_nat r)) as [row|] eqn:Er; [|auto].
+  destruct (Nat.eq_dec (Z.to_nat r) (Z.to_nat r')) as [E|N].
+  - rewrite <- E, Er. intros H. rewrite nth_error_set_nth_eq by (apply nth_error_Some; congruence).
+    now apply nth_error_set_nth_none.
+  - rewrite nth_error_set_nth_neq by assumption. auto.
+Qed.
+
+Lemma fold_step_none (r0 c0 r1 c1 : Z) : forall ps m d r c, get_cell d r c = None ->
+  get_cell (snd (fold_left (fun (st : mmap * list (list cell)) (p : Z * Z) =>
+         let '(r, c) := p in
+         (mset (fst st) r c (RRef r0 c0 r1 c1), set_cell (snd st) r c (merged_cell (fst st) r c))) ps (m, d))) r c = None.
+Proof.
+  induction ps as [|[pr pc] ps IH]; intros m d r c H; cbn [fold_left fst snd]; [assumption|].
+  apply IH. now apply get_set_cell_none.
+Qed.
+
+Definition attrs_ok (t : table) : Prop :=
+  forall r c x, 0 <= r -> 0 <= c -> get_cell (data t) r c = Some x -> cmerge x = attr_of (mget (merges t) r c).
+
+Lemma attrs_ok_merge t r0 c0 r1 c1 t' : 0 <= r0 -> 0 <= c0 -> merge_cells t r0 c0 r1 c1 = Ok t' -> attrs_ok t'.
+Proof.
+  intros Hr0 Hc0 Hm r c x' Hr Hc Hx'.
+  destruct (get_cell (data t) r c) as [x|] eqn:Ex.
+  - destruct (merge_picture_lemma t r0 c0 r1 c1 t' Hr0 Hc0 Hm r c x Hr Hc Ex) as (y & Hy & Ha & _).
+    rewrite Hx' in Hy. injection Hy as <-. exact Ha.
+  - exfalso. revert Hm Hx'. unfold merge_cells. fold (rect_cells r0 c0 r1 c1).
+    destruct (existsb _ (rect_cells r0 c0 r1 c1)); [discriminate|].
+    destruct (fold_left _ (rect_cells r0 c0 r1 c1) _) as [m1 d1] eqn:E.
+    intros H. injection H as <-. cbn [data].
+    pose proof (fold_step_none r0 c0 r1 c1 (rect_cells r0 c0 r1 c1)
+                  (mset (merges t) r0 c0 (RAnchor (r1 - r0 + 1) (c1 - c0 + 1))) (data t) r c Ex) as Hn.
+    rewrite E in Hn. cbn [snd] in Hn. rewrite (get_cell_refresh_none m1 d1 r c Hn). discriminate.
+Qed.
+
+Lemma attrs_ok_new nr nc : attrs_ok (new_table nr nc).
+Proof.
+  intros r c x Hr Hc H. unfold new_table, get_cell in H. cbn [data merges] in *.
+  destruct (nth_error _ (Z.to_nat r)) as [row|] eqn:Er; [|discriminate].
+  apply nth_error_In in Er. apply in_map_iff in Er as (r' & <- & _).
+  apply nth_error_In in H. apply in_map_iff in H as (c' & <- & _). reflexivity.
+Qed.
+
+(* with consistent attributes, merge_ranges is exactly the list of the map's anchors that lie in the table *)
+Theorem merge_ranges_anchors t q : attrs_ok t ->
+  (In q (merge_ranges t) <->
+   exists r c x h w, 0 <= r /\ 0 <= c /\ get_cell (data t) r c = Some x /\
+                     mget (merges t) r c = Some (RAnchor h w) /\ q = (r, c, r + h - 1, c + w - 1)).
+Proof.
+  intros Ha. rewrite merge_ranges_spec. split.
+  - intros (r & c & x & h & w & Hr & Hc & Hg & Hm & ->). exists r, c, x, h, w. repeat split; try assumption.
+    rewrite (Ha r c x Hr Hc Hg) in Hm. destruct (mget (merges t) r c) as [[h' w'|a b c' d]|]; cbn in Hm; try discriminate.
+    now injection Hm as -> ->.
+  - intros (r & c & x & h & w & Hr & Hc & Hg & Hm & ->). exists r, c, x, h, w. repeat split; try assumption.
+    rewrite (Ha r c x Hr Hc Hg), Hm. reflexivity.
+Qed.
+
+(* ---------- several pairwise disjoint rectangles ---------- *)
+Definition rect := (Z * Z * Z * Z)%type.
+Definition in_rect (R : rect) (r c : Z) : Prop := let '(r0, c0, r1, c1) := R in r0 <= r <= r1 /\ c0 <= c <= c1.
+Definition disjoint (R S : rect) : Prop := forall r c, in_rect R r c -> in_rect S r c -> False.
+Definition nonempty (R : rect) : Prop := let '(r0, c0, r1, c1) := R in 0 <= r0 <= r1 /\ 0 <= c0 <= c1.
+
+Lemma rect_cells_spec r0 c0 r1 c1 r c :
+  existsb (fun p => (r =? fst p) && (c =? snd p)) (rect_cells r0 c0 r1 c1) = true <->
+  in_rect (r0, c0, r1, c1) r c /\ (r, c) <> (r0, c0).
+Proof.
+  rewrite existsb_exists. unfold rect_cells, in_rect. split.
+  - intros ([pr pc] & Hin & Heq). cbn [fst snd] in Heq. apply andb_prop in Heq as [E1 E2].
+    apply Z.eqb_eq in E1, E2. subst pr pc. apply filter_In in Hin as [Hin Hf]. cbn [fst snd] in Hf.
+    apply in_flat_map in Hin as (r' & Hr' & Hin). apply in_map_iff in Hin as (c' & E & Hc'). injection E as <- <-.
+    apply in_zrange_iff in Hr', Hc'. split; [lia|].
+    intros E. injection E as -> ->. rewrite !Z.eqb_refl in Hf. discriminate.
+  - intros [[Hr Hc] Hne]. exists (r, c). split; [|cbn [fst snd]; now rewrite !Z.eqb_refl].
+    apply filter_In. split.
+    + apply in_flat_map. exists r. split; [apply in_zrange_iff; lia|]. apply in_map_iff. exists c. split; [reflexivity|apply in_zrange_iff; lia].
+    + cbn [fst snd]. apply negb_true_iff. apply andb_false_iff.
+      destruct (Z.eqb_spec r r0); [|now left]. destruct (Z.eqb_spec c c0); [|now right]. subst. contradiction.
+Qed.
+
+Definition merge_rect (t : table) (R : rect) : result table := let '(r0, c0, r1, c1) := R in merge_cells t r0 c0 r1 c1.
+Fixpoint merge_all (t : table) (Rs : list rect) : result table :=
+  match Rs with [] => Ok t | R :: rest => match merge_rect t R with Ok t' => merge_all t' rest | Err e => Err e end end.
+
+Definition anchors_are (t : table) (done : list rect) : Prop :=
+  forall r c h w, mget (merges t) r c = Some (RAnchor h w) <-> In (r, c, r + h - 1, c + w - 1) done.
+
+Lemma anchors_step t R done t' : nonempty R -> Forall nonempty done -> Forall (disjoint R) done ->
+  anchors_are t done -> merge_rect t R = Ok t' -> anchors_are t' (R :: done).
+Proof.
+  destruct R as [[[r0 c0] r1] c1]. intros HR Hne Hdis Ha Hm r c h w. cbn [merge_rect] in Hm.
+  rewrite (merge_map_lemma t r0 c0 r1 c1 t' Hm r c).
+  destruct (existsb (fun p => (r =? fst p) && (c =? snd p)) (rect_cells r0 c0 r1 c1)) eqn:Ex.
+  - apply rect_cells_spec in Ex as [Hin Hne']. split; [discriminate|].
+    intros [E|Hd].
+    + injection E as -> -> _ _. contradiction.
+    + exfalso. pose proof (proj1 (Forall_forall _ _) Hdis _ Hd) as D.
+      pose proof (proj1 (Forall_forall _ _) Hne _ Hd) as N. cbn in N.
+      apply (D r c); [exact Hin|]. cbn. lia.
+  - destruct ((r =? r0) && (c =? c0)) eqn:E0.
+    + apply andb_prop in E0 as [A B]. apply Z.eqb_eq in A, B. subst r c. split.
+      * intros H. injection H as <- <-. left. f_equal; [f_equal|]; lia.
+      * intros [E|Hd].
+        -- injection E as E1 E2. f_equal. f_equal; lia.
+        -- exfalso. pose proof (proj1 (Forall_forall _ _) Hdis _ Hd) as D.
+           pose proof (proj1 (Forall_forall _ _) Hne _ Hd) as N. cbn in N, HR.
+           apply (D r0 c0); cbn; lia.
+    + rewrite (Ha r c h w). split; [now right|].
+      intros [E|Hd]; [|assumption].
+      injection E as -> -> _ _. rewrite !Z.eqb_refl in E0. discriminate.
+Qed.
+
+Lemma merge_all_anchors : forall Rs t done tf,
+  Forall nonempty Rs -> Forall nonempty done ->
+  (forall R, In R Rs -> Forall (disjoint R) done) -> ForallOrdPairs disjoint Rs ->
+  anchors_are t done -> merge_all t Rs = Ok tf -> anchors_are tf (rev Rs ++ done).
+Proof.
+  induction Rs as [|R Rs IH]; intros t done tf HN HD Hdd Hpw Ha Hm; cbn [merge_all rev app] in *.
+  - injection Hm as <-. exact Ha.
+  - destruct (merge_rect t R) as [t'|e] eqn:E; [|discriminate].
+    rewrite <- app_assoc. cbn [app].
+    apply (IH t' (R :: done) tf); try assumption.
+    + exact (Forall_inv_tail HN).
+    + constructor; [exact (Forall_inv HN)|assumption].
+    + intros S HS. constructor.
+      * inversion Hpw as [|? ? Hfa Hrest]; subst. pose proof (proj1 (Forall_forall _ _) Hfa S HS) as D.
+        intros r c H1 H2. exact (D r c H2 H1).
+      * apply Hdd. now right.
+    + inversion Hpw; assumption.
+    + eapply anchors_step; eauto; [exact (Forall_inv HN)|apply Hdd; now left].
+Qed.
+
+Lemma merge_cells_keeps_cells t r0 c0 r1 c1 t' r c x : 0 <= r0 -> 0 <= c0 -> 0 <= r -> 0 <= c ->
+  merge_cells t r0 c0 r1 c1 = Ok t' -> get_cell (data t) r c = Some x -> exists y, get_cell (data t') r c = Some y.
+Proof.
+  intros A B C D Hm Hx. destruct (merge_picture_lemma t r0 c0 r1 c1 t' A B Hm r c x C D Hx) as (y & Hy & _). eauto.
+Qed.
+
+Lemma merge_all_props : forall Rs t tf, Forall nonempty Rs -> attrs_ok t -> merge_all t Rs = Ok tf ->
+  attrs_ok tf /\ (forall r c x, 0 <= r -> 0 <= c -> get_cell (data t) r c = Some x -> exists y, get_cell (data tf) r c = Some y).
+Proof.
+  induction Rs as [|[[[r0 c0] r1] c1] Rs IH]; intros t tf HN Ha Hm; cbn [merge_all merge_rect] in Hm.
+  - injection Hm as <-. split; [assumption|eauto].
+  - destruct (merge_cells t r0 c0 r1 c1) as [t'|e] eqn:E; [|discriminate].
+    pose proof (Forall_inv HN) as N. cbn in N.
+    destruct (IH t' tf (Forall_inv_tail HN) (attrs_ok_merge t r0 c0 r1 c1 t' ltac:(lia) ltac:(lia) E) Hm) as [A1 A2].
+    split; [assumption|]. intros r c x Hr Hc Hx.
+    destruct (merge_cells_keeps_cells t r0 c0 r1 c1 t' r c x ltac:(lia) ltac:(lia) Hr Hc E Hx) as [y Hy].
+    exact (A2 r c y Hr Hc Hy).
+Qed.
+
+Lemma new_table_cell nr nc r c : 0 <= r < nr -> 0 <= c < nc -> exists x, get_cell (data (new_table nr nc)) r c = Some x.
+Proof.
+  intros Hr Hc. unfold new_table, get_cell. cbn [data].
+  rewrite nth_error_map, (nth_error_zrange 0 nr (Z.to_nat r)) by lia. cbn [option_map].
+  rewrite nth_error_map, (nth_error_zrange 0 nc (Z.to_nat c)) by lia. cbn [option_map]. eauto.
+Qed.
+
+(* after merging any list of pairwise disjoint, non-empty rectangles whose top-left lies in the table, the table's
+   list of merge ranges is exactly the set of merged rectangles *)
+Theorem merge_ranges_exact_lemma nr nc Rs tf :
+  Forall nonempty Rs -> ForallOrdPairs disjoint Rs ->
+  Forall (fun R => let '(r0, c0, _, _) := R in r0 < nr /\ c0 < nc) Rs ->
+  merge_all (new_table nr nc) Rs = Ok tf ->
+  forall q, In q (merge_ranges tf) <-> In q Rs.
+Proof.
+  intros HN Hpw Hin Hm q.
+  destruct (merge_all_props Rs (new_table nr nc) tf HN (attrs_ok_new nr nc) Hm) as [Hattr Hkeep].
+  assert (Hanch : anchors_are tf (rev Rs ++ [])).
+  { apply (merge_all_anchors Rs (new_table nr nc) [] tf); try assumption; [constructor|intros; constructor|].
+    intros r c h w. cbn. split; [discriminate|tauto]. }
+  rewrite app_nil_r in Hanch.
+  rewrite (merge_ranges_anchors tf q Hattr). split.
+  - intros (r & c & x & h & w & Hr & Hc & Hg & Hmg & ->). apply in_rev. now apply Hanch.
+  - intros HqR. destruct q as [[[r0 c0] r1] c1].
+    pose proof (proj1 (Forall_forall _ _) HN _ HqR) as N. cbn in N.
+    pose proof (proj1 (Forall_forall _ _) Hin _ HqR) as I. cbn in I.
+    destruct (new_table_cell nr nc r0 c0 ltac:(lia) ltac:(lia)) as [x0 Hx0].
+    destruct (Hkeep r0 c0 x0 ltac:(lia) ltac:(lia) Hx0) as [y Hy].
+    exists r0, c0, y, (r1 - r0 + 1), (c1 - c0 + 1). repeat split; try lia; [assumption| |f_equal; [f_equal|]; lia].
+    apply Hanch. apply in_rev in HqR. replace (r0 + (r1 - r0 + 1) - 1) with r1 by lia.
+    replace (c0 + (c1 - c0 + 1) - 1) with c1 by lia. exact HqR.
+Qed.
